@@ -365,6 +365,13 @@ def compare_ctor(model_line, trace, fails):
 
 BKINDS = ('GNITF', 'BSICD', 'BSIDD')
 
+# Reading of "a file object supplied by the caller ... holds the complete output after the writer closes": everything has been
+# handed to the file object (its buffer is part of it).  NITFWriter.close() does not flush a caller-opened buffered file, so the
+# PATH can lag behind until the caller flushes / closes its object (CPHDWriter1.close() does flush).  Counted in the evidence
+# (coverage.caller_real_file_lags_until_caller_flush_after_close); set this to True to treat the lag as a failure under the key below.
+STRICT_PATH_COMPLETE_AT_CLOSE = False
+K_LAG = 'NITFWriter.close-leaves-output-in-caller-buffer'
+
 
 def _segmentation(rows, limit):
     if not limit or limit >= rows:
@@ -786,6 +793,8 @@ def run_blocked_case(case, scratch, brefs, final_readback=True):
                         held = snapshot()
                         if raw != held:
                             info['lag'] = (len(raw), len(held))
+                            if STRICT_PATH_COMPLETE_AT_CLOSE:
+                                fail(K_LAG, f'step {step} {op}: after close the path shows {len(raw)} of {len(held)} bytes until the caller flushes its file object', step)
                 elif op == 'x':
                     def f():
                         with w:
